@@ -206,7 +206,7 @@ func (e *Engine) callWrites(fr *Frame, cc *ssa.CallCommon, ws *writeSet, depth i
 	if cc.IsInvoke() {
 		key := e.invokeKey(cc)
 		if c := e.db.Contracts[key]; c != nil {
-			e.contractWrites(c, ws)
+			e.contractWrites(c, ws, cc.Signature(), true, cc.Value.Type())
 			return
 		}
 		if noEffect(key) {
@@ -240,9 +240,59 @@ func (e *Engine) callWrites(fr *Frame, cc *ssa.CallCommon, ws *writeSet, depth i
 	ws.why = append(ws.why, "call through function value "+cc.Value.Name())
 }
 
-func (e *Engine) contractWrites(c *Contract, ws *writeSet) {
+func (e *Engine) contractWrites(c *Contract, ws *writeSet, sig *types.Signature, invoke bool, recvT types.Type) {
+	// parameter name -> static type, for object-level items
+	ptype := map[string]types.Type{}
+	if sig != nil {
+		names := e.paramNames(c, sig, invoke)
+		var pts []types.Type
+		if invoke {
+			pts = append(pts, recvT)
+		} else if sig.Recv() != nil {
+			pts = append(pts, sig.Recv().Type())
+		}
+		for i := 0; i < sig.Params().Len(); i++ {
+			pts = append(pts, sig.Params().At(i).Type())
+		}
+		for i, n := range names {
+			if i < len(pts) {
+				ptype[n] = pts[i]
+			}
+		}
+	}
 	for _, m := range c.Modifies {
 		m = strings.TrimSpace(m)
+		if i := strings.Index(m, "("); i > 0 && strings.HasSuffix(m, ")") {
+			fnName, arg := m[:i], strings.TrimSpace(m[i+1:len(m)-1])
+			if t, ok := ptype[arg]; ok {
+				switch fnName {
+				case "obj", "elems", "map":
+					e.objectWrites(t, ws)
+					continue
+				case "big":
+					ws.keys["BigVal"] = true
+					continue
+				}
+			}
+		}
+		if parts := strings.Split(m, "."); len(parts) >= 2 {
+			if t, ok := ptype[parts[0]]; ok {
+				// x.f[.g]: field components of x's struct type
+				if pt, isPtr := t.Underlying().(*types.Pointer); isPtr && kindOf(pt.Elem()) == kStruct {
+					path := "." + strings.Join(parts[1:], ".")
+					hit := false
+					for _, l := range leaves(pt.Elem()) {
+						if l.path == path || strings.HasPrefix(l.path, path+".") || strings.HasPrefix(l.path, path+"#") {
+							ws.keys[fieldKey(pt.Elem(), l.path)] = true
+							hit = true
+						}
+					}
+					if hit {
+						continue
+					}
+				}
+			}
+		}
 		switch {
 		case m == "*":
 			ws.all = true
@@ -286,7 +336,7 @@ func (e *Engine) funcWrites(fr *Frame, fn *ssa.Function, cc *ssa.CallCommon, ws 
 	}
 	c := e.db.Contracts[key]
 	if c != nil && !c.Inline && fn.Parent() == nil {
-		e.contractWrites(c, ws)
+		e.contractWrites(c, ws, fn.Signature, false, nil)
 		return
 	}
 	if e.inRepo(fn) && depth < maxInlineDepth && !seen[fn] {
